@@ -78,6 +78,7 @@ type sock = {
   mutable outst : int list;
   out_alias : (int, string) Hashtbl.t;
   mutable drops : int;
+  mutable stray_pubrel : bool;   (* the client sent PUBREL for a packet id that was not open *)
 }
 
 let last_cls = ref "-"
@@ -211,7 +212,7 @@ let oracle : S_wire.oracle_fn = fun cfg hooks steps _iobs raw ->
                Hashtbl.replace sessions cid s; s in
            s.w <- w; s.sock <- Some l; s.ver <- ver; s.persistent <- persistent;
            Hashtbl.replace socks l { sver = ver; scid = cid; adv_alias; adv_recv; adv_maxpkt; decl_maxpkt; decl_alias; dead = false;
-                                     in_alias = Hashtbl.create 4; outst = []; out_alias = Hashtbl.create 4; drops = 0 };
+                                     in_alias = Hashtbl.create 4; outst = []; out_alias = Hashtbl.create 4; drops = 0; stray_pubrel = false };
            reconnected := Some l
          | [Sexp.A "send"; l; p] ->
            let l = atom_int l in
@@ -313,7 +314,9 @@ let oracle : S_wire.oracle_fn = fun cfg hooks steps _iobs raw ->
                     end
                   | _ when !viol <> [] ->
                     must_die := Some (l, List.concat_map fst !viol, String.concat " and " (List.map snd !viol))
-                  | [Sexp.A "pubrel"; _; _; _] -> if s.subs <> [] then raise (Outside "subscriber_pubrel")
+                  | [Sexp.A "pubrel"; Sexp.A rid; _; _] ->
+                    if s.subs <> [] then raise (Outside "subscriber_pubrel");
+                    (try if not (List.mem (int_of_string rid) k.outst) then k.stray_pubrel <- true with _ -> ())
                   | Sexp.A "subscribe" :: _ :: sps :: ts ->
                     if s.is_pub then raise (Outside "publisher_subscribes");
                     (match ts with
@@ -452,6 +455,12 @@ let oracle : S_wire.oracle_fn = fun cfg hooks steps _iobs raw ->
                  (match !got_disc with
                   | Some c when List.mem c codes -> ()
                   | Some c -> raise (Fail (Printf.sprintf "step %d: clause I: socket %d sent %s: expected DISCONNECT %s, got DISCONNECT 0x%02x" i l what (String.concat "/" (List.map (Printf.sprintf "0x%02x") codes)) c))
+                  | None when opn && codes = [0x93] && k.stray_pubrel ->
+                    (* known finding: the PUBCOMP answering a PUBREL gives a unit of the receive quota back even when the
+                       packet id was not open, so the client can then hold more than Receive Maximum publishes *)
+                    kf "kf_unknown_pubrel_refunds_quota"
+                      (Printf.sprintf "step %d: socket %d sent %s after a PUBREL for an id that was not open: expected DISCONNECT 0x93, got none" i l what);
+                    raise (Outside "after_stray_pubrel_refund")
                   | None -> raise (Fail (Printf.sprintf "step %d: clause I: socket %d sent %s: expected DISCONNECT %s, got none (connection %s)" i l what (String.concat "/" (List.map (Printf.sprintf "0x%02x") codes)) (if opn then "open" else "closed"))));
                  if opn then raise (Fail (Printf.sprintf "step %d: clause I: socket %d sent %s and got DISCONNECT but the connection is still open" i l what));
                  k.dead <- true;
@@ -515,7 +524,7 @@ let oracle : S_wire.oracle_fn = fun cfg hooks steps _iobs raw ->
         ignore closed_by_script)
       (List.combine steps raw);
     last_cls := cls ();
-    let rank = ["kf_resend_at_full_quota_disconnected"; "kf_retransmission_exceeds_max_packet_size"; "kf_alias_pushes_over_max_size"; "kf_connack_exceeds_client_max_packet_size"] in
+    let rank = ["kf_unknown_pubrel_refunds_quota"; "kf_resend_at_full_quota_disconnected"; "kf_retransmission_exceeds_max_packet_size"; "kf_alias_pushes_over_max_size"; "kf_connack_exceeds_client_max_packet_size"] in
     (match List.rev !kfs with
      | [] -> (true, "-", "")
      | l ->
@@ -523,6 +532,12 @@ let oracle : S_wire.oracle_fn = fun cfg hooks steps _iobs raw ->
        let names = List.sort_uniq compare (List.map fst l) in
        (false, name, List.assoc name l ^ (if List.length names > 1 then " [also: " ^ String.concat "," (List.filter (fun n -> n <> name) names) ^ "]" else "")))
   with
+  | Outside why when !kfs <> [] ->
+    (* the walk stopped after a known finding was met: report it *)
+    last_cls := cls ();
+    let l = List.rev !kfs in
+    let name = fst (List.hd l) in
+    ignore why; (false, name, List.assoc name l)
   | Outside why -> last_cls := "outside_" ^ why; (true, "-", "")
   | Fail why -> last_cls := cls (); (false, "-", why)
 
